@@ -1159,14 +1159,18 @@ spec fn core_ok(jobs: Seq<NodeInfo>, m: Map<String, usize>, dag: &GraphType, rea
     &&& (fin ==> forall|i: int| 0 <= i < jobs.len() ==> finished(#[trigger] jobs[i].state))
 }
 
-/// the cascade invariant with job x exempt from W5 (x = -1: nobody)
-spec fn core_ok_x(jobs: Seq<NodeInfo>, m: Map<String, usize>, dag: &GraphType, ready: Set<String>, cleanup: Set<String>, fin: bool, x: int) -> bool {
+/// the structural part of the representation invariant (everything but W5)
+spec fn core_struct(jobs: Seq<NodeInfo>, m: Map<String, usize>, dag: &GraphType, ready: Set<String>, cleanup: Set<String>, fin: bool) -> bool {
     &&& ids_wf(jobs, m)
     &&& edges_in_range(dag, jobs.len())
     &&& ready_set_wf(jobs, ready, m)
     &&& cleanup_set_wf(jobs, cleanup, m)
-    &&& out_wf_x(jobs, x)
     &&& (fin ==> forall|i: int| 0 <= i < jobs.len() ==> finished(#[trigger] jobs[i].state))
+}
+
+/// the cascade invariant with job x exempt from W5 (x = -1: nobody)
+spec fn core_ok_x(jobs: Seq<NodeInfo>, m: Map<String, usize>, dag: &GraphType, ready: Set<String>, cleanup: Set<String>, fin: bool, x: int) -> bool {
+    core_struct(jobs, m, dag, ready, cleanup, fin) && out_wf_x(jobs, x)
 }
 
 proof fn lemma_core_x(jobs: Seq<NodeInfo>, m: Map<String, usize>, dag: &GraphType, ready: Set<String>, cleanup: Set<String>, fin: bool, x: int)
@@ -1337,6 +1341,10 @@ proof fn lemma_cleanup_ok(pre: Seq<NodeInfo>, post: Seq<NodeInfo>, m: Map<String
 }
 
 impl<T: PPGEvaluatorStrategy> PPGEvaluator<T> {
+    spec fn core_structure(&self) -> bool {
+        core_struct(self.jobs@, self.job_id_to_node_idx@, &self.dag, self.jobs_ready_to_run@, self.jobs_ready_for_cleanup@, self.already_started is Finished)
+    }
+
     spec fn core_x(&self, x: int) -> bool {
         core_ok_x(self.jobs@, self.job_id_to_node_idx@, &self.dag, self.jobs_ready_to_run@, self.jobs_ready_for_cleanup@, self.already_started is Finished, x)
     }
